@@ -202,18 +202,18 @@ var scalarTypes = []zed.Type{zed.TypeString, zed.TypeString, zed.TypeBool, zed.T
 // drawPool draws m values (not necessarily distinct) for one key column.
 func drawPool(t *rapid.T, zctx *zed.Context, tg *gen.TypeGen, vg *gen.ValGen, m int) []zed.Value {
 	var types []zed.Type
+	nt := rapid.SampledFrom([]int{1, 2, 2, 3, 4}).Draw(t, "nptypes")
 	switch rapid.IntRange(0, 5).Draw(t, "palette") {
 	case 0, 1: // integer-encoded only: the bulk sorter's native fast path when this is the first key
-		types = rapid.SliceOfN(rapid.SampledFrom(nativeTypes), 1, 3).Draw(t, "ptypes")
+		types = rapid.SliceOfN(rapid.SampledFrom(nativeTypes), nt, nt).Draw(t, "ptypes")
 	case 2:
-		types = rapid.SliceOfN(rapid.SampledFrom(numericTypes), 1, 3).Draw(t, "ptypes")
+		types = rapid.SliceOfN(rapid.SampledFrom(numericTypes), nt, nt).Draw(t, "ptypes")
 	case 3:
-		types = rapid.SliceOfN(rapid.SampledFrom(scalarTypes), 1, 3).Draw(t, "ptypes")
+		types = rapid.SliceOfN(rapid.SampledFrom(scalarTypes), nt, nt).Draw(t, "ptypes")
 	case 4: // one generated (possibly complex) type: same-type container comparisons
 		types = []zed.Type{tg.Draw(t, 2)}
 	default: // anything
-		k := rapid.IntRange(1, 4).Draw(t, "nptypes")
-		for i := 0; i < k; i++ {
+		for i := 0; i < nt; i++ {
 			types = append(types, tg.Draw(t, 2))
 		}
 	}
@@ -232,14 +232,17 @@ func genSortCase(t *rapid.T) SortCase {
 	if vt.Thorough() {
 		maxLen = 160
 	}
-	n := rapid.IntRange(0, maxLen).Draw(t, "n")
+	n := 0
+	if rapid.IntRange(0, 24).Draw(t, "empty?") > 0 {
+		n = rapid.IntRange(1, maxLen).Draw(t, "n")
+	}
 	c := SortCase{Seq: gen.Seq{Zctx: zctx}}
 	c.Reverse = rapid.IntRange(0, 3).Draw(t, "reverse") == 0
 	c.Nulls = rapid.SampledFrom([]string{"", "", "first", "last"}).Draw(t, "nulls")
 	dirs := []string{"", "", "asc", "desc", "desc"}
 	if rapid.IntRange(0, 4).Draw(t, "shape") == 0 {
 		// top-level values of mixed types, sorted by `this` or with no sort expression
-		pool := drawPool(t, zctx, tg, vg, rapid.SampledFrom([]int{1, 2, 3, 6, 15}).Draw(t, "m"))
+		pool := drawPool(t, zctx, tg, vg, rapid.SampledFrom([]int{1, 3, 4, 8, 15}).Draw(t, "m"))
 		for i := 0; i < n; i++ {
 			c.Seq.Vals = append(c.Seq.Vals, rapid.SampledFrom(pool).Draw(t, "v"))
 		}
@@ -272,7 +275,7 @@ func genSortCase(t *rapid.T) SortCase {
 		}
 		pools := map[string][]zed.Value{}
 		for _, f := range sortKeyFields {
-			pools[f] = drawPool(t, zctx, tg, vg, rapid.SampledFrom([]int{1, 2, 3, 6, 15}).Draw(t, "m"))
+			pools[f] = drawPool(t, zctx, tg, vg, rapid.SampledFrom([]int{1, 3, 4, 8, 15}).Draw(t, "m"))
 		}
 		pads := []string{"", "x", strings.Repeat("pad", 10), strings.Repeat("P", 100)}
 		cur := 0
